@@ -36,11 +36,13 @@ T fp<T>::ext_gcd(T &a, T &b, T &x, T &y) {
     a = (a < 0) ? -a : a;
     b = (b < 0) ? -b : b;
     if (a == 0) {
+        x = 0;
         y = bneg ? -1 : 1;
         return b;
     }
     if (b == 0) {
-        x = bneg ? -1 : 1;
+        x = aneg ? -1 : 1;
+        y = 0;
         return a;
     }
 
